@@ -1001,7 +1001,7 @@ pub(crate) fn run(replay: Option<&str>) -> Report {
         rep.caps_hit.push("c10-pure: no fixpoint within depth 30".into());
         rep.exhaustive = false;
     }
-    let depth = if thorough { 30 } else { 6 };
+    let depth = if thorough { 30 } else { 7 };
     for m in live_models(thorough) {
         // the add-path scenario (partial re-announcement before End-of-RIB) needs 7 steps
         let d = if m.addpath { depth.max(7) } else { depth };
